@@ -479,7 +479,7 @@ class RangeNode(SyntaxNode):
                                           boost=self.boost)
                     if q is not None:
                         return attach(q, self)
-                except QueryParserError:
+                except Exception:
                     e = sys.exc_info()[1]
                     return attach(query.error_query(e), self)
 
